@@ -26,11 +26,17 @@ def as_int(v):
         return v
     if isinstance(v, VBool):
         return VInt(z3.If(v.z, I(1), I(0)), bits=1)
+    if isinstance(v, VObj):
+        return VInt(v.z)
     raise VError(f'integer expected, got {v!r}')
 
 
 def is_num(v):
     return isinstance(v, (VInt, VBool))
+
+
+def hasher_index(v):
+    return VInt(v.z)
 
 
 def truth(v):
@@ -51,8 +57,10 @@ def truth(v):
         return z3.And(z3.Not(v.isnone), truth(v.val))
     if isinstance(v, VTuple):
         return z3.BoolVal(len(v.items) > 0)
-    if isinstance(v, (VRec, VRef, VClass, VFunc, VOpaque, VLambda, VBuiltin)):
+    if isinstance(v, (VRec, VRef, VClass, VFunc, VOpaque, VLambda, VBuiltin, VObj)):
         return TRUE
+    if isinstance(v, VFrozenSet):
+        return z3.BoolVal(len(v.items) > 0)
     if isinstance(v, VConstDict):
         return z3.BoolVal(len(v.items) > 0)
     if isinstance(v, VDict):
@@ -66,7 +74,7 @@ def length(v):
         return VInt(z3.Length(v.z)), []
     if isinstance(v, VList):
         return VInt(I(0) if v.elem is None else z3.Length(v.z)), []
-    if isinstance(v, VTuple):
+    if isinstance(v, (VTuple, VFrozenSet)):
         return VInt(len(v.items)), []
     if isinstance(v, VConstDict):
         return VInt(len(v.items)), []
@@ -245,6 +253,8 @@ def norm_index(i, n):
 
 
 def index(seq, i):
+    if isinstance(seq, VFrozenSet):
+        return VNone, [(TRUE, 'TypeError')]
     if isinstance(seq, VTuple):
         c = as_int(i).conc()
         if c is None:
@@ -300,7 +310,11 @@ def slice_(seq, lo, hi):
 
 def contains(container, item):
     """`item in container`"""
-    if isinstance(container, VTuple):
+    if isinstance(container, (VTuple, VFrozenSet)):
+        if isinstance(item, VOpt):
+            return VBool(z3.And(z3.Not(item.isnone), z3.Or([same(item.val, x) for x in container.items] + [FALSE]))), []
+        if item is VNone:
+            return VBool(False), []
         return VBool(z3.Or([same(item, x) for x in container.items] + [FALSE])), []
     if isinstance(container, VConstDict):
         return VBool(z3.Or([same(item, k) for k, _ in container.items] + [FALSE])), []
